@@ -1197,7 +1197,8 @@ class Suspender(Interrupter):
                 return None
 
             #truncate active outline to suspend lower frames
-            framer.change(main.head, main.headHuman)
+            main.cauxes.append(aux)
+            framer.reactivate()
             return aux
 
         if not aux.done: #not done so active
@@ -1237,6 +1238,8 @@ class Suspender(Interrupter):
 
         aux.exitAll() # also sets .done = True
         if aux.original:
+            if aux.main and aux in aux.main.cauxes:
+                aux.main.cauxes.remove(aux) # no longer suspends lower frames
             aux.main = None
 
 
